@@ -93,9 +93,13 @@ def wrap_inputs(kind, lst):
 
 def run_impl(case, k, dtype, agg_obj=None, inputs_override="same"):
     prog = ajlib.Program.from_json(case["prog"])
-    ts = prog.build(dtype)
-    for t, vals in case["old"].items():
-        ts[int(t)].grad = torch.tensor(vals, dtype=dtype).reshape(prog.shapes[int(t)])
+    if dtype == "narrow":
+        # float32 leaves upcast at once by a float64 computation: Jacobian, weights and .grad are float32
+        ts = prog.build(torch.float64, narrow=True)
+        dtype = torch.float32
+    else:
+        ts = prog.build(dtype)
+    ajlib.set_old_grads(ts, prog, case["old"], dtype)      # with the leaf's own memory layout
     inputs = case["inputs"] if inputs_override == "same" else inputs_override
     res = {"error": None, "agg_calls": []}
     agg_o = agg_obj or mk_agg(case["agg"], dtype)
@@ -227,9 +231,11 @@ def judge_case(chk, case, model_runs):
     exp = expected_grads(case, prog)
     ok = True
     # (1) direct oracle on the implementation, float64 exact and float32 (tolerance)
-    for k in case["ks"]:
+    for ki, k in enumerate(case["ks"]):
         for dtype, tol in ((torch.float64, 0.0 if case["agg"][0] != "mean" else 1e-12),
-                           (torch.float32, 1e-4)):
+                           (torch.float32, 1e-4), ("narrow", 1e-4)):
+            if dtype == "narrow" and (case["id"] + ki) % 2:
+                continue
             res, _, _ = run_impl(case, k, dtype)
             chk.count({"id": case["id"], "k": k, "dtype": str(dtype), "outs": case["outs"],
                        "inputs": case["inputs"], "agg": case["agg"][0]},
